@@ -266,6 +266,9 @@ fn programs(kind: &str) -> Vec<(usize, Vec<Vec<Op>>)> {
             "acq1,acq1|rec1,acq2", "acq1,rel|lrec1,acq2", "acq1,acq1,rel|rec1,bor", "acq1,lrel|acq2,bor,rel", "acq1,acq1,acq1|acq2,rel,acq2",
             "acq1,rel|acq2,rel|acq3,rel", "acq1,lrel|acq2,rel|bor,acq3", "acq1,acq1|rec1|acq2,rel", "acq1,rel|acq2,lrel|lrec1,isl", "acq1,lrel|acq1,lrel|acq2,acq2",
             "acq1,rel,acq1|acq2,rel|rec1,acq3",
+            // a dead owner (thread 0 stops after its acquire) recovered by TWO threads while a live thread acquires:
+            // a recoverer stalled between its load of the cell and its CAS must not touch the re-populated cell
+            "acq1|rec1|rec1,acq2,rel", "acq1|rec1|rec1|acq2,rel", "acq1,acq1|rec1|rec1,acq2,bor",
         ],
         _ => panic!("kind"),
     };
